@@ -2,6 +2,14 @@ module verif/harness
 
 go 1.22
 
-require github.com/pojntfx/panrpc/go v0.0.0
+require (
+	github.com/fxamacker/cbor/v2 v2.7.0
+	github.com/pojntfx/panrpc/go v0.0.0
+)
+
+require (
+	github.com/google/uuid v1.6.0 // indirect
+	github.com/x448/float16 v0.8.4 // indirect
+)
 
 replace github.com/pojntfx/panrpc/go => /repo/go
